@@ -7,6 +7,50 @@ Oracles are direct re-computations from the property statement / docs/utils.md V
                      value = sum over particles with minimum-image distance r < cut of exp(-r^2/2s^2)/sqrt(2 pi s^2) A_p;
   time_average     : w = floor(period/interval) frames per window, row n = mean of frames n..n+w-1, T-w rows,
                      reported index = a central frame of the window, increasing by one per row.
+
+CLAUSES (round 3 audit: clause / axis of the statement and quantifier -> facet, deciding assertion, populated class tags)
+  S1 "any per-particle scalar, vector or tensor property"      spatial_average: close(g, want) over the whole array;
+       rank0/rank1/rank2, tensor-square / tensor-non-square, real / complex, dtype-float64 / -complex128 and (NEW)
+       dtype-float32 / -complex64 (single-precision tolerance), (NEW) layout-fortran / -strided / -readonly
+  S2 "mean over itself and its listed neighbours"              same assertion, both directions, every particle;
+       cn0-present, cn-varies-within-frame, padded-rows-present, p0-nonzero, (NEW) lists-directed (scatter != gather),
+       (NEW) N20-64, cnmax7-30, cnmax>30; dtype of the result = dtype of the input; input untouched
+  S3 "frame by frame"                                          frames1..3, lists-differ-per-frame, second-call
+  S4 "neighbour files" (quantifier)                            plain / padded / tight text, rows-shuffled; Nmax omitted /
+       larger / equal / smaller than the longest list, (NEW) Nmax as np.int64, (NEW) default-Nmax-truncates: lists longer
+       than the default Nmax = 30 with Nmax omitted (WAS: cn <= 6, the default was never the binding one)
+  G1 "full Cartesian grid of the requested numbers of equally spaced points spanning the box bounds (each grid point
+      exactly once, x slowest)"                                gaussian_blurring / gaussian_large: close(gp[n], grid) for
+       every point in order; grid-equal / grid-unequal, d2 / d3, origin-*, box-varies, (NEW) ngrids-list / -array /
+       -array-int32 / -tuple, (NEW) G65-600 with G%64!=0 (WAS: <= 64 points: a blocked loop that loses the remainder was
+       invisible), (NEW) int-box-fractional-grid (integer bounds, non-integer grid points)
+  G2 "sum over particles within the cutoff"                    per grid point value comparison, ambiguity rule at the
+       sphere; cut-partial, ambiguous-points, (NEW) N30-150
+  G3 "normalised Gaussian of the minimum-image distance"       same comparison; ortho / tri / (NEW) general (axis-permuted
+       triclinic cell, cell-not-lower-triangular) / (NEW) int (int64 hmatrix, bounds and integer coordinates),
+       tilt-negative / tilt-positive, tilt-varies-only, image-used, mask-full / -partial / -open, ppp-len3-in-2d, (NEW) ppp-list,
+       (NEW) particle-on-grid-point (r = 0 exactly), (NEW) params-int / params-np.int64 (sigma = 2, gaussian_cut = 6)
+  G4 "times the property" (rank 0..2)                          rank0..2, tensor-non-square, (NEW) cond-float32 / -int64 /
+       -int32 / -indicator (0/1 membership field): accepted by every branch of the unchanged routine although the docs
+       say "type should be float"; the result is float64 whatever the input dtype
+  G5 frames                                                    frames1 / frames2 / (NEW) frames3; second-call
+  W1 "mean over the window of floor(period/interval) consecutive frames starting at n"
+                                                               time_average: row count = T - w, values against the mean of
+       exactly those frames, accuracy relative to the largest value INSIDE the window; exact / frac / decimal, w1..w5+,
+       w-odd / w-even, range-relaxing / -early-outlier / -late-outlier, (NEW) decimal-crisp: where every true-division
+       order of period / (step * dt) gives the intended w, w is demanded (WAS: w - 1 or w accepted for every decimal
+       period, so floor division went unseen; decimal-crisp-floor-division-differs counts the deciding cases),
+       (NEW) default-dt (dt omitted: WAS never omitted), (NEW) period-type-int / -np.int64, (NEW) rows0 =
+       window-is-whole-trajectory, (NEW) dtype-float32 / -complex64, layouts, (NEW) second-call on the same objects
+  W2 "reported with the index of the window's central frame"   |index - (n + (w-1)/2)| <= 1/2, integer-valued, +1 per row
+  W3 "periods that are exact multiples of the frame interval"  exact (dyadic, asserted exactly), decimal (see W1)
+  Not asserted: one grid point on an axis (linspace(lo, hi, 1) = lo is numpy's convention, the statement's "spanning"
+  does not define it); complex properties in gaussian_blurring (documented float; the routine drops the imaginary part);
+  integer properties in spatial_average (in-place division raises: documented float); rank > 0 in time_average
+  (documented shape [nsnapshots, nparticle], higher ranks raise); neighbour files holding more frames than the property.
+
+Deep (thorough-tier only) facets: deep_sizes_spatial (N 100..500, cn up to 90), deep_sizes_gaussian (N 200..1500,
+60 x 60 / 16^3 grids), deep_sizes_window (T 25..300, N up to 300).
 """
 from __future__ import annotations
 
@@ -24,32 +68,46 @@ from ..util import arr, close, equal, require
 from PyMatterSim.reader.reader_utils import Snapshots
 from PyMatterSim.utils.coarse_graining import gaussian_blurring, spatial_average, time_average
 
-RULE = ("spatial: rank 0-2 real/complex properties x 1-3 frames x synthetic neighbour files (cn 0..6, rows in any id "
-        "order, per-frame lists differ) x Nmax {default, >=, ==, < largest cn}; gaussian: d {2,3} x grids with equal "
-        "and unequal point numbers x ortho (any origin) and triclinic cells x masks x sigma, cut x rank 0-2 x 1-2 frames "
-        "(box may change between frames); window: T 2-10 x w 1..T-1 x exact-multiple / fractional / decimal-multiple "
-        "periods x real/complex. Extension 1: coordination number varying within a frame (padded rows, particle 0 "
-        "non-zero), sheared two-frame series (same edges, different tilt), second call with new contents in the same "
-        "array / Snapshots objects and the same file name. Non-trivial rules per facet.")
+RULE = ("spatial: rank 0-2 real/complex properties (float64/complex128, float32/complex64; C / Fortran / strided / "
+        "read-only layouts) x 1-3 frames x synthetic directed neighbour files (cn 0..6 element-drawn, N 20-64 with cn up to "
+        "45 from a drawn seed, rows in any id order, per-frame lists differ) x Nmax {default (truncating at 30), >=, ==, < "
+        "largest cn; int / np.int64}; gaussian: d {2,3} x grids with equal and unequal point numbers (2-6 per axis; "
+        "gaussian_large 7-24 / 4-9 per axis) x ortho (any origin), triclinic, general (axis-permuted) and integer cells x "
+        "masks x sigma, cut (float / int) x rank 0-2 x float64 / float32 / int64 / int32 / 0-1 properties x 1-3 frames (box "
+        "may change between frames) x ngrids as list / tuple / int64 / int32 array; window: T 2-24 x w 1..T x "
+        "exact-multiple / fractional / decimal-multiple periods / dt omitted x real/complex, single/double x period as float "
+        "/ int. Coordination number varying within a frame (padded rows, particle 0 non-zero), sheared multi-frame series "
+        "(same edges, different tilt), second call with new contents in the same array / Snapshots objects and the same "
+        "file name (all three routines). Non-trivial rules per facet.")
 ASSUMPTIONS = [
-    "properties are float64 or complex128 arrays (integer arrays cannot be divided in place); gaussian_blurring is "
-    "documented for float properties only",
+    "spatial_average / time_average: properties are float64, complex128, float32 or complex64 arrays (integer arrays "
+    "cannot be divided in place); gaussian_blurring is documented for float properties; float32 and integer-valued "
+    "(int64 / int32) properties are generated as well because every branch of the routine accepts them, complex ones are not",
     "time_average is documented for shape [nsnapshots, nparticle] only (higher ranks raise a broadcast error), so only "
     "rank 0 is generated there",
-    "neighbour lists hold distinct particles other than the centre, 1-based ids, one header per frame",
-    "grid points whose cut-off sphere passes within 1e-9 (relative) of a particle, or - in triclinic cells - whose "
-    "minimum image is tied, are not compared (either outcome valid)",
-    "decimal periods such as 0.03 with interval 0.01: floor(period/interval) is decided by float rounding, w-1 or w "
-    "are both accepted there; exact dyadic multiples are asserted exactly",
-    "number of rows of time_average = T - w as documented by DESIGN (the last complete window is not required)",
+    "neighbour lists hold distinct particles other than the centre, 1-based ids, one header per frame; lists longer than "
+    "Nmax (default 30) are cut to their first Nmax entries (read_neighbors, property C05)",
+    "grid points whose cut-off sphere passes within 1e-9 (relative) of a particle, or - in non-orthogonal cells - whose "
+    "minimum image is tied, are not compared (either outcome valid); every axis has >= 2 grid points",
+    "decimal periods such as 0.03 with interval 0.01: floor(period/interval) is demanded to be the intended multiple w "
+    "when period/(step*dt), (period/dt)/step and (period/step)/dt all truncate to w in double precision; where some order "
+    "gives w-1, w-1 and w are both accepted; exact dyadic multiples are asserted exactly",
+    "number of rows of time_average = T - w as documented by DESIGN (the last complete window is not required); w = T "
+    "gives zero rows",
+    "single-precision inputs carry values exactly representable in float32; the routines may average them in single "
+    "precision ((n + 2) 2^-24 per mean of n values)",
 ]
 MANIFEST = {
     "text": "spatial_average, gaussian_blurring and time_average agree with direct re-computations of the stated "
-            "neighbour mean, Gaussian grid sum (grid layout, every point once, x slowest; minimum image; cut-off; "
-            "normalisation; masks; unequal point numbers; 2D/3D; multi-frame) and window mean with the central-frame "
-            "index, for generated properties of rank 0-2",
+            "neighbour mean (directed lists, coordination numbers 0..45, default Nmax truncation), Gaussian grid sum (grid "
+            "layout, every point once, x slowest; minimum image in orthogonal, triclinic, axis-permuted and integer cells; "
+            "cut-off; normalisation; masks; unequal point numbers up to 24 x 24 / 9 x 9 x 9; 2D/3D; multi-frame; float / "
+            "integer properties and parameters) and window mean with the central-frame index (exact, fractional and decimal "
+            "periods, default dt, whole-trajectory window, second call on the same objects), for generated properties of "
+            "rank 0-2",
     "note": "reference implementations in pbt/ref/cgref.py (numpy only); minimum image = contract of C02; "
-            "generated sizes N <= 10, <= 36 grid points, T <= 10; ambiguity margin 1e-9 at the cut-off sphere",
+            "quick-tier sizes N <= 150, <= 729 grid points, T <= 24 (thorough: N <= 1500, 3600 grid points, T <= 300); "
+            "ambiguity margin 1e-9 at the cut-off sphere",
     "technique": "property-based testing (Hypothesis): reference-model differential with generated neighbour files, "
                  "grids and windows; interval rule at discontinuities; side files compared with return values",
 }
@@ -58,7 +116,8 @@ VAL = st.one_of(st.integers(-40, 40).map(lambda k: k / 4.0), fl(-10.0, 10.0))
 
 
 @st.composite
-def prop_st(draw, T, N, rank, cplx, dims=(1, 3)):
+def prop_st(draw, T, N, rank, cplx, dims=(1, 3), elements=None):
+    VAL = elements if elements is not None else globals()["VAL"]
     shape = (T, N)
     if rank == 1:
         shape += (draw(st.integers(*dims)),)
@@ -88,22 +147,67 @@ def lists_st(draw, T, N, cnmax=6, cnmin=0):
     return frames, order
 
 
+GRID4 = st.integers(-40, 40).map(lambda k: k / 4.0)      # exactly representable in float32
+
+
+def _rng_lists(seed, T, N, cnlo, cnhi, same_cn):
+    """Directed neighbour lists from a drawn seed (big systems: drawing 60 permutations of 60 ids element by element is
+    too slow).  Each particle lists cn distinct OTHER particles in random order, cn in [cnlo, cnhi] varying within the
+    frame; particle 0 always carries fewer entries than the frame maximum (padded row)."""
+    rng = np.random.default_rng(seed)
+    frames, order = [], []
+    for _ in range(T):
+        fr = []
+        for i in range(N):
+            others = np.array([j for j in range(N) if j != i])
+            cn = cnhi if same_cn else int(rng.integers(cnlo, cnhi + 1))
+            if i == 0 and not same_cn:
+                cn = cnlo
+            fr.append([int(j) for j in rng.permutation(others)[:min(cn, N - 1)]])
+        frames.append(fr)
+        order.append([int(k) for k in (rng.permutation(N) if rng.integers(0, 2) else np.arange(N))])
+    return frames, order
+
+
 @st.composite
-def spatial_st(draw):
-    T = draw(st.integers(1, 3))
-    N = draw(st.integers(1, 10))
+def spatial_st(draw, deep=False):
+    big = deep or draw(st.integers(0, 5)) == 0
     rank = draw(st.integers(0, 2))
     cplx = draw(st.booleans())
-    prop = draw(prop_st(T, N, rank, cplx))
-    frames, order = draw(lists_st(T, N))
+    single = draw(st.integers(0, 4)) == 0        # float32 / complex64 property (values on the 1/4 grid: exact)
+    if big:
+        # realistic list lengths: N 20..64, coordination numbers up to 45 -- longer than the DEFAULT Nmax = 30, which
+        # then truncates -- from a drawn seed
+        T = draw(st.integers(1, 2))
+        N = draw(st.sampled_from([20, 32, 33, 40, 47, 47, 64, 64] if not deep else [100, 128, 257, 500]))
+        cnhi = draw(st.sampled_from([12, 29, 30, 31, 32, 38, 45, 45] if not deep else [12, 30, 31, 45, 60, 90]))
+        cnhi = min(cnhi, N - 1)
+        cnlo = draw(st.sampled_from([0, 1, 5, max(0, cnhi - 3)]))
+        frames, order = _rng_lists(draw(st.integers(0, 2 ** 32 - 1)), T, N, cnlo, cnhi, draw(st.integers(0, 4)) == 0)
+        shape = (T, N) + {0: (), 1: (draw(st.integers(1, 3)),), 2: (draw(st.integers(1, 3)), draw(st.integers(1, 3)))}[rank]
+        rng = np.random.default_rng(draw(st.integers(0, 2 ** 32 - 1)))
+        prop = rng.integers(-40, 41, size=shape) / 4.0
+        if cplx:
+            prop = prop + 1j * rng.integers(-40, 41, size=shape) / 4.0
+        prop[:, 0] = prop[:, 0] + 100.0          # particle 0 would be noticed if it leaked through zero padding
+    else:
+        T = draw(st.integers(1, 3))
+        N = draw(st.integers(1, 10))
+        prop = draw(prop_st(T, N, rank, cplx, elements=GRID4 if single else VAL))
+        frames, order = draw(lists_st(T, N))
     maxcn = max(len(l) for fr in frames for l in fr)
     modes = ["default", "big", "equal"] + (["trunc"] if maxcn >= 2 else [])
+    if big and maxcn > 30:
+        modes += ["default", "default"]
     mode = draw(st.sampled_from(modes))
     nmax = {"default": None, "big": maxcn + draw(st.integers(1, 5)), "equal": max(maxcn, 1),
             "trunc": draw(st.integers(1, max(1, maxcn - 1)))}[mode]
     case = {"prop": prop, "frames": frames, "order": order, "nmax": nmax, "mode": mode,
-            "style": draw(st.sampled_from(["plain", "padded", "tight"])), "save": draw(st.booleans()), "again": None}
-    if draw(st.integers(0, 3)) == 0:
+            "style": draw(st.sampled_from(["plain", "padded", "tight"])), "save": draw(st.booleans()), "again": None,
+            "single": single, "big": big,
+            "layout": draw(st.sampled_from(["c", "c", "c", "fortran", "strided", "readonly"])),
+            "nmax_repr": draw(st.sampled_from(["int", "int", "np.int64"])), "relname": draw(st.booleans())}
+    if draw(st.integers(0, 3)) == 0 and not big:
         # a second call with new contents in the SAME array object and the SAME file name
         frames2, order2 = draw(lists_st(T, N))
         case["again"] = {"prop": draw(prop_st(T, N, 0, cplx)) if rank == 0 else None, "frames": frames2, "order": order2,
@@ -111,24 +215,49 @@ def spatial_st(draw):
     return case
 
 
+def _as_layout(a, how):
+    """The same values in another memory layout (what numpy hands to callers: transposed loads, slices, mmap)."""
+    if how == "fortran":
+        return np.asfortranarray(a)
+    if how == "strided":                       # every second particle of an array twice as wide; the gaps hold NaN
+        base = np.full((a.shape[0], 2 * a.shape[1]) + a.shape[2:], np.nan, dtype=a.dtype)
+        base[:, 1::2] = a
+        return base[:, 1::2]
+    out = a.copy()
+    if how == "readonly":
+        out.flags.writeable = False
+    return out
+
+
 def check_spatial(case):
     prop = case["prop"]
+    single = case.get("single", False)
+    if single:
+        prop = prop.astype(np.complex64 if np.iscomplexobj(prop) else np.float32)   # exact: values on the 1/4 grid
     T, N = prop.shape[:2]
-    fn = os.path.join(os.getcwd(), "nb.dat")
+    fn = "nb.dat" if case.get("relname") else os.path.join(os.getcwd(), "nb.dat")   # relative / absolute file name
     with open(fn, "w") as f:
         f.write(cgref.neighbor_file_text(case["frames"], case["order"], case["style"]))
-    inp = prop.copy()
+    layout = case.get("layout", "c")
+    inp = _as_layout(prop, layout)
     kw = {}
     if case["nmax"] is not None:
-        kw["Nmax"] = case["nmax"]
+        kw["Nmax"] = np.int64(case["nmax"]) if case.get("nmax_repr") == "np.int64" else case["nmax"]
     if case["save"]:
         kw["outputfile"] = "sa_out.npy"
     got = spatial_average(inp, fn, **kw)
-    want = cgref.spatial_average(prop, case["frames"], case["nmax"])
+    # default Nmax = 30 (docs/utils.md VII.2 via the signature): longer lists are cut to their first 30 entries
+    eff_nmax = 30 if case["nmax"] is None else case["nmax"]
+    prop64 = prop.astype(np.complex128 if np.iscomplexobj(prop) else np.float64)
+    want = cgref.spatial_average(prop64, case["frames"], eff_nmax)
     scale = max(1.0, float(np.abs(prop).max()) if prop.size else 1.0)
+    cns = [len(l) for fr in case["frames"] for l in fr]
+    # float64: mean of <= 46 numbers, 1e-12 scale covers it (46 eps = 1e-14).  float32 / complex64 input: the library
+    # may accumulate in single precision: (cn + 2) u per value with u = 2^-24
+    tol = dict(rtol=1e-10, atol=1e-12 * scale) if not single else dict(rtol=0.0, atol=2.0 * (max(cns) + 2) * 2.0 ** -24 * scale)
     g = arr("spatial_average", got, shape=prop.shape)
     require(g.dtype == prop.dtype, f"spatial_average: dtype {g.dtype} returned for {prop.dtype} input")
-    close("spatial_average", g, want, rtol=1e-10, atol=1e-12 * scale)
+    close("spatial_average", g, want, **tol)
     require(np.array_equal(inp, prop), "spatial_average modified its input array")
     if case["save"]:
         require(os.path.exists("sa_out.npy"), "spatial_average: outputfile not written")
@@ -136,27 +265,41 @@ def check_spatial(case):
     if case.get("again"):
         ag = case["again"]
         prop2 = ag["prop"] if ag["prop"] is not None else prop[::-1] * 0.5 + ag["shift"]
+        prop2 = prop2.astype(prop.dtype)
+        if layout == "readonly":
+            inp = inp.copy()
         inp[...] = prop2                                   # same array object, new contents
         with open(fn, "w") as f:                           # same file name, new lists
             f.write(cgref.neighbor_file_text(ag["frames"], ag["order"], case["style"]))
         nmax2 = case["nmax"]
         got2 = arr("spatial_average (second call)", spatial_average(inp, fn, **({"Nmax": nmax2} if nmax2 else {})),
                    shape=prop.shape)
+        tol2 = dict(tol)
+        tol2["atol"] = tol["atol"] / scale * max(1.0, float(np.abs(prop2).max()))
         close("spatial_average, second call with new contents in the same array and file name", got2,
-              cgref.spatial_average(prop2, ag["frames"], nmax2), rtol=1e-10,
-              atol=1e-12 * max(1.0, float(np.abs(prop2).max())))
-    cns = [len(l) for fr in case["frames"] for l in fr]
+              cgref.spatial_average(prop2.astype(prop64.dtype), ag["frames"], 30 if nmax2 is None else nmax2), **tol2)
     differ = T > 1 and any(case["frames"][k] != case["frames"][0] for k in range(1, T))
     tags = [f"rank{prop.ndim - 2}", "complex" if np.iscomplexobj(prop) else "real", f"frames{T}",
             "nmax-" + case["mode"], "cn0-present" if 0 in cns else "cn>0",
-            "rows-shuffled" if any(o != list(range(N)) for o in case["order"]) else "rows-ordered"]
+            "rows-shuffled" if any(o != list(range(N)) for o in case["order"]) else "rows-ordered",
+            "dtype-" + prop.dtype.name, "layout-" + layout, "file-relative" if case.get("relname") else "file-absolute",
+            "N<=10" if N <= 10 else "N20-64", "cnmax<=6" if max(cns) <= 6 else "cnmax7-30" if max(cns) <= 30 else "cnmax>30"]
+    if case["nmax"] is None and max(cns) > 30:
+        tags.append("default-Nmax-truncates")
+    if case["nmax"] is not None:
+        tags.append("Nmax-type-" + case.get("nmax_repr", "int"))
     if differ:
         tags.append("lists-differ-per-frame")
     percn = [sorted({len(l) for l in fr}) for fr in case["frames"]]
     tags.append("cn-varies-within-frame" if any(len(c) > 1 for c in percn) else "cn-constant-within-frame")
     if any(len(fr[0]) < max(len(l) for l in fr) for fr in case["frames"]):
         tags.append("padded-rows-present")
+    # directed lists: i lists j but j does not list i (a scatter along bonds differs from the gather only then)
+    directed = any(j in range(N) and i not in fr[j] for fr in case["frames"] for i in range(N) for j in fr[i][:eff_nmax])
+    tags.append("lists-directed" if directed else "lists-symmetric")
     tags.append("p0-nonzero" if np.all(np.abs(prop[:, 0]).reshape(T, -1).max(axis=1) > 0.1) else "p0-small")
+    if prop.ndim == 4:
+        tags.append("tensor-square" if prop.shape[2] == prop.shape[3] else "tensor-non-square")
     if case.get("again"):
         tags.append("second-call")
     nontrivial = bool(max(cns) >= 1 and not np.allclose(want, prop))
@@ -174,20 +317,58 @@ GRIDS2 = [[5, 2], [2, 5], [3, 4], [4, 3], [2, 3], [6, 2], [2, 2], [3, 3], [4, 4]
 GRIDS3 = [[3, 4, 2], [3, 3, 3], [2, 3, 4], [4, 2, 3], [2, 2, 3], [3, 2, 2], [2, 3, 2], [2, 2, 2], [4, 3, 3]]
 
 
+def _permuted_cell(c, perm):
+    """A reader-style triclinic cell after an axis permutation: H -> P H P^T (no longer lower triangular)."""
+    perm = list(perm)
+    return {"d": c["d"], "kind": "general", "H": c["H"][perm][:, perm].copy(), "lo": c["lo"][perm].copy(),
+            "origin": c["origin"]}
+
+
 @st.composite
-def gauss_st(draw):
+def _gauss_cell(draw, d, kind, ngrids):
+    if kind == "general":
+        perms = [p for p in __import__("itertools").permutations(range(d)) if list(p) != list(range(d))]
+        return _permuted_cell(draw(cell_st(d, "tri", lmin=1.0, lmax=30.0)), draw(st.sampled_from(perms)))
+    if kind == "int":
+        # hand-built integer box (np.diag([10, 10, 10]), integer coordinates): every array of the snapshot is int64;
+        # edge = (n_k - 1) * m so that the grid points have integer coordinates and particles can sit exactly on them
+        if draw(st.booleans()):
+            L = np.array([max(1, n - 1) * draw(st.integers(1, 6)) for n in ngrids], dtype=float)
+        else:                                    # grid points generally not at integer coordinates
+            L = np.array([draw(st.integers(2, 30)) for _ in ngrids], dtype=float)
+        lo = np.array([float(draw(st.integers(-20, 20))) for _ in range(d)])
+        if draw(st.booleans()):
+            lo[:] = 0.0
+        return {"d": d, "kind": "int", "H": np.diag(L), "lo": lo, "origin": "zero" if not lo.any() else "arbitrary"}
+    return draw(cell_st(d, kind, lmin=1.0, lmax=30.0))
+
+
+GB_DTYPES = ["float64"] * 6 + ["float32", "int64", "int32", "indicator"]
+
+
+@st.composite
+def gauss_st(draw, big=False, deep=False):
     d = draw(st.sampled_from([2, 3]))
-    if draw(st.booleans()):
+    if big:
+        # grids and particle numbers of real use (tests / docs: 20 x 20, 25 x 25): more than 64 grid points, any remainder
+        if d == 2:
+            ngrids = [draw(st.one_of(st.integers(7, 24), st.sampled_from([8, 16, 17, 20, 24, 25]))) if not deep else
+                      draw(st.sampled_from([20, 25, 31, 32, 33, 47, 60])) for _ in range(2)]
+        else:
+            ngrids = [draw(st.one_of(st.integers(4, 9), st.sampled_from([4, 5, 8, 9]))) if not deep else
+                      draw(st.sampled_from([7, 8, 9, 12, 16])) for _ in range(3)]
+    elif draw(st.booleans()):
         ngrids = list(draw(st.sampled_from(GRIDS2 if d == 2 else GRIDS3)))
     else:
         ngrids = [draw(st.integers(2, 6 if d == 2 else 4)) for _ in range(d)]
-    T = draw(st.integers(1, 2))
-    kind = draw(st.sampled_from(["ortho", "ortho", "ortho", "tri"]))
-    cells = [draw(cell_st(d, kind, lmin=1.0, lmax=30.0))]
-    if T == 2:
+    T = draw(st.sampled_from([1, 1, 1, 2, 2, 3])) if not big else draw(st.sampled_from([1, 1, 2]))
+    kind = draw(st.sampled_from(["ortho", "ortho", "ortho", "tri", "tri", "general", "int"] if not big else
+                                ["ortho", "ortho", "tri", "general"]))
+    cells = [draw(_gauss_cell(d, kind, ngrids))]
+    for _ in range(T - 1):
         how = draw(st.sampled_from(["same", "fresh", "retilt", "retilt", "retilt"] if kind == "tri" else ["same", "fresh"]))
         if how == "fresh":
-            cells.append(draw(cell_st(d, kind, lmin=1.0, lmax=30.0)))
+            cells.append(draw(_gauss_cell(d, kind, ngrids)))
         elif how == "retilt":
             # sheared trajectory: same edge lengths and origin, different tilt factors
             c2 = draw(cell_st(d, "tri", lmin=1.0, lmax=30.0))
@@ -195,21 +376,48 @@ def gauss_st(draw):
             cells.append({"d": d, "kind": "tri", "H": H2, "lo": cells[0]["lo"].copy(), "origin": cells[0]["origin"]})
         else:
             cells.append(cells[0])
-    N = draw(st.integers(1, 10))
+    N = draw(st.integers(1, 10)) if not big else draw(st.sampled_from([30, 64, 65, 100, 150] if not deep else
+                                                                    [200, 500, 1000, 1500]))
     ppp = draw(ppp_st(d))
+    rng = np.random.default_rng(draw(st.integers(0, 2 ** 32 - 1))) if big else None
     pos = []
     for c in cells:
-        f = draw(frac_st(N, d))
+        if kind == "int":
+            L = np.diag(c["H"])
+            f = np.array([[float(draw(st.integers(0, int(L[k]) - 1))) for k in range(d)] for _ in range(N)]) / L
+        elif big:
+            f = rng.random((N, d))
+        else:
+            f = draw(frac_st(N, d))
         offs = np.zeros((N, d))
         if draw(st.booleans()):
-            offs = draw(hnp.arrays(np.int64, (N, d), elements=st.integers(-1, 1), fill=st.nothing())).astype(float) * ppp
-        pos.append(c["lo"] + (f + offs) @ c["H"])
+            if big:
+                offs = rng.integers(-1, 2, size=(N, d)).astype(float) * ppp
+            else:
+                offs = draw(hnp.arrays(np.int64, (N, d), elements=st.integers(-1, 1), fill=st.nothing())).astype(float) * ppp
+        pos.append(c["lo"] + (f + offs) @ c["H"] if kind != "int" else
+                   np.round(c["lo"] + (f + offs) * np.diag(c["H"])))
     rank = draw(st.integers(0, 2))
-    prop = draw(prop_st(T, N, rank, False))
+    cdt = draw(st.sampled_from(GB_DTYPES))
+    if big:
+        shape = (T, N) + {0: (), 1: (draw(st.integers(1, 3)),), 2: (draw(st.integers(1, 3)), draw(st.integers(1, 3)))}[rank]
+        prop = rng.integers(-40, 41, size=shape) / 4.0 if cdt != "float64" else rng.normal(size=shape) * 3.0
+    else:
+        prop = draw(prop_st(T, N, rank, False, elements=None if cdt == "float64" else GRID4))
+    if cdt in ("int64", "int32"):
+        prop = np.round(prop)                       # small integers, cast in check
+    elif cdt == "indicator":
+        prop = (prop > 0).astype(float)             # 0 / 1 membership field (e.g. particle_type == 1), stored as int64
     lmin = min(float(np.diag(c["H"]).min()) for c in cells)
-    defaults = bool(np.all(ppp == 1)) and draw(st.sampled_from([False] * 7 + [True]))
+    defaults = bool(np.all(ppp == 1)) and draw(st.sampled_from([False] * 4 + [True]))
+    params = "float"
     if defaults:
         sigma, cut = 2.0, 6.0
+    elif draw(st.integers(0, 5)) == 0:
+        # the same numbers as Python / numpy integers (sigma=2, gaussian_cut=6)
+        params = draw(st.sampled_from(["int", "np.int64"]))
+        sigma = float(draw(st.integers(1, max(1, int(lmin)))))
+        cut = float(draw(st.integers(1, max(2, int(3 * sigma)))))
     else:
         sigma = lmin * draw(nice_float(0.05, 1.0))
         if draw(st.booleans()):
@@ -220,10 +428,11 @@ def gauss_st(draw):
     if d == 2 and draw(st.booleans()):
         ppp_pad = int(draw(st.integers(0, 1)))
     return {"d": d, "ngrids": ngrids, "cells": cells, "pos": pos, "ppp": ppp, "ppp_pad": ppp_pad, "prop": prop,
-            "sigma": float(sigma), "cut": float(cut), "defaults": defaults,
-            "as_array": draw(st.booleans()), "save": draw(st.booleans()),
+            "sigma": float(sigma), "cut": float(cut), "defaults": defaults, "params": params, "cdt": cdt, "big": big,
+            "ngrids_repr": draw(st.sampled_from(["list", "array", "array-int32", "tuple"])),
+            "as_array": False, "save": draw(st.booleans()), "ppp_list": draw(st.integers(0, 3)) == 0,
             "again": ({"scale": float(draw(st.sampled_from([0.5, 2.0, 1.25, 0.8]))), "shift": float(draw(VAL))}
-                      if draw(st.integers(0, 3)) == 0 else None)}
+                      if draw(st.integers(0, 3)) == 0 and kind != "int" and not big else None)}
 
 
 def _verify_gauss(tag, res, snaps, Hs, pos, prop, case):
@@ -267,23 +476,43 @@ def check_gauss(case):
     case = dict(case)
     d, ngrids, prop = case["d"], case["ngrids"], case["prop"]
     T, N = prop.shape[:2]
-    snaps = Snapshots(nsnapshots=T, snapshots=[snapshot_from(c, p, np.ones(N, dtype=int), 100 * k)
-                                              for k, (c, p) in enumerate(zip(case["cells"], case["pos"]))])
-    cond = prop.copy()
-    ng = np.array(ngrids) if case["as_array"] else list(ngrids)
+    sl = []
+    for k, (c, p) in enumerate(zip(case["cells"], case["pos"])):
+        if c["kind"] == "int":
+            import dataclasses
+            sn = snapshot_from(dict(c, kind="ortho"), p, np.ones(N, dtype=int), 100 * k)
+            sn = dataclasses.replace(sn, positions=np.round(sn.positions).astype(np.int64),
+                                     hmatrix=np.round(sn.hmatrix).astype(np.int64),
+                                     boxlength=np.round(sn.boxlength).astype(np.int64),
+                                     boxbounds=np.round(sn.boxbounds).astype(np.int64))
+        else:
+            sn = snapshot_from(c, p, np.ones(N, dtype=int), 100 * k)
+        sl.append(sn)
+    snaps = Snapshots(nsnapshots=T, snapshots=sl)
+    cdt = case.get("cdt", "float64")
+    cond = prop.astype({"float64": np.float64, "float32": np.float32, "int64": np.int64, "int32": np.int32,
+                        "indicator": np.int64}[cdt])          # exact: grid / integer values
+    require(np.array_equal(cond, prop), "harness: property not representable in the requested dtype")
+    rep = case.get("ngrids_repr", "array" if case.get("as_array") else "list")
+    ng = {"list": list(ngrids), "array": np.array(ngrids), "array-int32": np.array(ngrids, dtype=np.int32),
+          "tuple": tuple(ngrids)}[rep]
     ppp = case["ppp"].copy()
     if case["ppp_pad"] is not None:
         ppp = np.append(ppp, case["ppp_pad"])
+    if case.get("ppp_list"):
+        ppp = [int(x) for x in ppp]                # the mask as a plain list
+    conv = {"float": float, "int": int, "np.int64": np.int64}[case.get("params", "float")]
     if case["defaults"]:
         args, kw = (snaps, cond, ng), {}
     else:
-        args, kw = (snaps, cond, ng, case["sigma"], ppp), {"gaussian_cut": case["cut"]}
+        args, kw = (snaps, cond, ng, conv(case["sigma"]), ppp), {"gaussian_cut": conv(case["cut"])}
     if case["save"]:
         kw["outputfile"] = "gb"
     res = gaussian_blurring(*args, **kw)
     Hs = [c["H"] for c in case["cells"]]
     namb, cutpartial, wrapped, nonzero = _verify_gauss("", res, snaps, Hs, case["pos"], prop, case)
-    require(np.array_equal(cond, prop), "gaussian_blurring modified the input property")
+    require(np.array_equal(cond, prop) and cond.dtype == np.dtype(cdt if cdt != "indicator" else "int64"),
+            "gaussian_blurring modified the input property")
     for n in range(T):
         require(np.array_equal(snaps.snapshots[n].positions, case["pos"][n]), "gaussian_blurring modified positions")
     if case["save"]:
@@ -301,18 +530,45 @@ def check_gauss(case):
             sn.boxlength[...] = sn.boxlength * sc
             if sn.realbounds is not None:
                 sn.realbounds[...] = sn.realbounds * sc
-        prop2 = prop[:, ::-1] * 0.5 + shift
+        if cond.dtype.kind == "i":
+            prop2 = prop[:, ::-1] * 2.0 + np.round(shift)          # stays integer-valued
+        elif cond.dtype == np.float32:
+            prop2 = prop[:, ::-1] * 0.5 + np.round(shift * 4.0) / 4.0   # stays on the 1/8 grid: exact in float32
+        else:
+            prop2 = prop[:, ::-1] * 0.5 + shift
         cond[...] = prop2
+        require(np.array_equal(cond, prop2), "harness: second property not representable in the requested dtype")
         kw.pop("outputfile", None)
         res2 = gaussian_blurring(*args, **kw)
         a2 = _verify_gauss(" (second call, objects changed in place)", res2, snaps, [H * sc for H in Hs],
                            [p * sc for p in case["pos"]], prop2, case)
         namb += a2[0]
     unequal = len(set(ngrids)) > 1
+    G = int(np.prod(ngrids))
     tags = [f"d{d}", "grid-unequal" if unequal else "grid-equal", f"rank{prop.ndim - 2}", f"frames{T}",
             case["cells"][0]["kind"], "origin-" + case["cells"][0]["origin"],
             "mask-full" if np.all(case["ppp"] == 1) else ("mask-open" if not case["ppp"].any() else "mask-partial"),
-            "defaults" if case["defaults"] else "explicit-args"]
+            "defaults" if case["defaults"] else "explicit-args",
+            "ngrids-" + rep, "cond-" + cdt, "params-" + ("default" if case["defaults"] else case.get("params", "float")),
+            "G<=36" if G <= 36 else "G37-64" if G <= 64 else "G65-600" if G <= 600 else "G>600",
+            "N<=10" if N <= 10 else "N30-150" if N <= 150 else "N>150"]
+    if G > 64:
+        tags.append("G%64!=0" if G % 64 else "G%64==0")
+    if prop.ndim == 4:
+        tags.append("tensor-square" if prop.shape[2] == prop.shape[3] else "tensor-non-square")
+    if case["cells"][0]["kind"] == "general":
+        tags.append("cell-not-lower-triangular" if np.any(np.triu(case["cells"][0]["H"], 1)) else "cell-lower-triangular")
+    if case["cells"][0]["kind"] == "int":
+        sp = [np.diag(case["cells"][0]["H"])[k] / max(1, ngrids[k] - 1) for k in range(d)]
+        tags.append("int-box-integer-grid" if all(float(x).is_integer() for x in sp) else "int-box-fractional-grid")
+    if case["cells"][0]["kind"] == "tri":
+        tl = case["cells"][0]["H"] - np.diag(np.diag(case["cells"][0]["H"]))
+        tags.append("tilt-negative" if np.any(tl < 0) else "tilt-positive")
+    for n in range(T):
+        gpts = cgref.grid_points(snaps.snapshots[n].boxbounds, ngrids)
+        if N * len(gpts) <= 4000 and np.any(np.all(gpts[:, None, :] == case["pos"][n][None, :, :], axis=2)):
+            tags.append("particle-on-grid-point")
+            break
     if T == 2 and not (np.array_equal(case["cells"][1]["H"], case["cells"][0]["H"])
                        and np.array_equal(case["cells"][1]["lo"], case["cells"][0]["lo"])):
         tags.append("box-varies")
@@ -326,6 +582,8 @@ def check_gauss(case):
         tags.append("ambiguous-points")
     if case["ppp_pad"] is not None:
         tags.append("ppp-len3-in-2d")
+    if not case["defaults"]:
+        tags.append("ppp-list" if case.get("ppp_list") else "ppp-array")
     if case.get("again"):
         tags.append("second-call")
     nontrivial = bool(nonzero and (unequal or d == 3) and cutpartial)
@@ -345,24 +603,50 @@ DEC_DT = [0.001, 0.002, 0.005, 0.01, 0.0025, 0.0005, 0.004, 0.05, 0.1]
 DEC_STEP = [1, 2, 5, 10, 20, 50, 100, 1000, 5000, 3, 7]
 
 
+def _window_counts(period, step, dt):
+    """int(period / interval) under every order in which the quotient can be formed with true divisions in double
+    precision (interval = step * dt)."""
+    return {int(period / (step * dt)), int((period / dt) / step), int((period / step) / dt)}
+
+
 @st.composite
-def window_st(draw):
-    T = draw(st.one_of(st.integers(2, 10), st.integers(2, 10), st.integers(11, 24)))
-    N = draw(st.integers(1, 6))
+def window_st(draw, deep=False):
+    if deep:
+        T = draw(st.one_of(st.integers(25, 300), st.sampled_from([64, 100, 128, 129, 200, 256, 257, 300])))
+        N = draw(st.sampled_from([1, 7, 64, 300]))
+    else:
+        T = draw(st.one_of(st.integers(2, 10), st.integers(2, 10), st.integers(11, 24)))
+        N = draw(st.integers(1, 6))
     cplx = draw(st.booleans())
-    prop = draw(prop_st(T, N, 0, cplx))
-    w = draw(st.integers(1, T - 1))
-    mode = draw(st.sampled_from(["exact", "exact", "frac", "frac", "decimal"]))
-    if mode == "decimal" and T < 3:
+    single = draw(st.integers(0, 5)) == 0
+    if deep:
+        rng = np.random.default_rng(draw(st.integers(0, 2 ** 32 - 1)))
+        prop = rng.integers(-40, 41, size=(T, N)) / 4.0 if single else rng.normal(size=(T, N)) * 3.0
+        if cplx:
+            prop = prop + 1j * rng.integers(-40, 41, size=(T, N)) / 4.0
+    else:
+        prop = draw(prop_st(T, N, 0, cplx, elements=GRID4 if single else None))
+    full = draw(st.sampled_from([False] * 15 + [True]))   # window = whole trajectory: T - w = 0 rows
+    w = T if full else draw(st.integers(1, T - 1))
+    mode = draw(st.sampled_from(["exact", "exact", "frac", "frac", "decimal", "decimal", "default-dt", "default-dt"]))
+    if mode == "decimal" and (T < 3 or full):
         mode = "exact"
+    prepr = "float"
     if mode == "exact":
-        dt = draw(st.integers(1, 7)) * 2.0 ** (-draw(st.integers(0, 10)))
+        dt = draw(st.integers(1, 7)) * 2.0 ** (-draw(st.sampled_from([0, 0, 0, 1, 2, 3, 4, 5, 6, 7, 8, 9, 10])))
         step = draw(st.integers(1, 1000))
         period = w * (step * dt)            # exact: small integers times a power of two
+        if float(period).is_integer() and draw(st.integers(0, 3)) > 0:
+            prepr = draw(st.sampled_from(["int", "np.int64"]))   # time_period=20 rather than 20.0
     elif mode == "frac":
         dt = draw(nice_float(0.0005, 0.1))
         step = draw(st.integers(1, 5000))
         period = (w + draw(nice_float(0.05, 0.95))) * (step * dt)
+    elif mode == "default-dt":
+        # dt omitted: the documented default 0.002; fractional part well inside (0, 1)
+        dt = None
+        step = draw(st.sampled_from([1, 10, 100, 500, 1000, 5000, 3, 7]))
+        period = (w + draw(st.sampled_from([0.25, 0.5, 0.75]))) * (step * 0.002)
     else:
         w = draw(st.integers(2, T - 1))
         dt = draw(st.sampled_from(DEC_DT))
@@ -372,21 +656,69 @@ def window_st(draw):
     # dynamic range: "the mean over the window of w consecutive frames starting at n" depends on those frames only.  A
     # quantity relaxing over many decades, or one large early value, must not leak into later windows (a running-total
     # implementation -- cumulative sum, add-new/subtract-old -- loses every window that is small against the total).
-    rng = draw(st.sampled_from(["flat", "flat", "relaxing", "early-outlier", "late-outlier"]))
-    if rng == "relaxing":
-        dec = draw(st.sampled_from([0.5, 1.0, 2.0, 3.0]))
+    rng_kind = draw(st.sampled_from(["flat", "flat", "relaxing", "early-outlier", "late-outlier"]))
+    if rng_kind == "relaxing":
+        dec = draw(st.sampled_from([0.5, 1.0, 2.0, 3.0] if not deep else [0.05, 0.1, 0.2]))
         prop = prop * (10.0 ** (-dec * np.arange(T)))[:, None]
-    elif rng in ("early-outlier", "late-outlier"):
-        k = 0 if rng == "early-outlier" else T - 1
+    elif rng_kind in ("early-outlier", "late-outlier"):
+        k = 0 if rng_kind == "early-outlier" else T - 1
         j = draw(st.integers(0, N - 1))
         prop = prop.copy()
         prop[k, j] = prop[k, j] * 10.0 ** draw(st.sampled_from([6, 12, 18])) + 10.0 ** draw(st.sampled_from([6, 12, 18]))
-    return {"prop": prop, "w": w, "mode": mode, "dt": float(dt), "step": int(step), "period": float(period), "t0": t0,
-            "npint": draw(st.booleans()), "range": rng}
+    again = None
+    if draw(st.integers(0, 3)) == 0 and not deep:
+        # second call on the SAME Snapshots / array objects: contents replaced in place, another window
+        w2 = draw(st.integers(1, T - 1))
+        again = {"w": w2, "frac": draw(st.sampled_from([0.25, 0.5, 0.75])), "scale": draw(st.sampled_from([-2.0, 0.5, 3.0]))}
+    return {"prop": prop, "w": w, "mode": mode, "dt": None if dt is None else float(dt), "step": int(step),
+            "period": float(period), "t0": t0, "npint": draw(st.booleans()), "range": rng_kind, "single": single,
+            "prepr": prepr, "again": again,
+            "layout": draw(st.sampled_from(["c", "c", "c", "fortran", "strided", "readonly"]))}
+
+
+def _check_window_result(label, res, prop, w_allowed, single):
+    """Everything the statement says about one call: T - w rows, row n = mean of frames n .. n+w-1, central index."""
+    T, N = prop.shape
+    require(isinstance(res, tuple) and len(res) == 2, f"time_average{label} returned {type(res).__name__}, not a pair")
+    vals = arr("time_average values" + label, res[0], ndim=2)
+    idx = arr("time_average indices" + label, res[1], ndim=1)
+    R = vals.shape[0]
+    require(vals.shape[1] == N, f"time_average{label}: {vals.shape[1]} columns for {N} particles")
+    require(idx.shape[0] == R, f"time_average{label}: {R} rows but {idx.shape[0]} indices")
+    w_obs = T - R
+    require(w_obs in w_allowed, f"time_average{label}: {R} rows for T={T}; window of floor(period/interval) = "
+                                f"{sorted(w_allowed)} frames means {[T - x for x in sorted(w_allowed)]} rows")
+    p64 = prop.astype(np.complex128 if np.iscomplexobj(prop) else np.float64)
+    want = cgref.window_means(p64, w_obs)[:R]
+    # accuracy is asserted against the magnitude of the values INSIDE each window (per row and particle): a direct mean
+    # of w numbers is accurate to w * eps * max|window|, whatever the rest of the series holds.  1e-12 covers w <= 4000;
+    # float32 / complex64 input may be averaged in single precision: (w + 2) 2^-24
+    wmax = np.stack([np.abs(p64[n:n + w_obs]).max(axis=0) for n in range(R)]) if R else np.zeros((0, N))
+    fac = 2.0 * (w_obs + 2) * 2.0 ** -24 if single else 1e-12
+    bad = np.abs(vals - want) > (0.0 if single else 1e-10) * np.abs(want) + fac * np.maximum(wmax, 1e-290)
+    if bad.any():
+        n, j = [int(x[0]) for x in np.nonzero(bad)]
+        raise Violation(f"time_average values{label} (window {w_obs} frames): row {n}, particle {j}: got {vals[n, j]!r}, "
+                        f"mean of frames {n}..{n + w_obs - 1} is {want[n, j]!r} (largest |value| in that window "
+                        f"{wmax[n, j]!r}, largest in the series {float(np.abs(prop).max())!r})")
+    require(np.all(np.isreal(idx)) and np.all(np.asarray(idx, dtype=float) == np.round(np.asarray(idx, dtype=float))),
+            f"time_average{label}: non-integer frame indices {idx.tolist()}")
+    fi = np.asarray(idx, dtype=float)
+    centre = np.arange(R) + (w_obs - 1) / 2.0
+    require(np.all(np.abs(fi - centre) <= 0.5),
+            lambda: f"time_average{label}: reported indices {fi.tolist()} are not central frames of the windows "
+                    f"[n, n+{w_obs - 1}] (centres {centre.tolist()})")
+    require(np.all(np.diff(fi) == 1), lambda: f"time_average{label}: indices {fi.tolist()} do not advance by one per row")
+    return w_obs, R
 
 
 def check_window(case):
     prop, w, mode = case["prop"], case["w"], case["mode"]
+    single = case.get("single", False)
+    if single:
+        prop = prop.astype(np.complex64 if np.iscomplexobj(prop) else np.float32)
+        # single-precision subnormals (relaxing series): a mean has an absolute, not a relative, error there
+        prop[np.abs(prop) < 1e-30] = 0
     T, N = prop.shape
     cell = {"H": np.diag([3.0, 4.0]), "lo": np.zeros(2), "kind": "ortho"}
     pos = np.zeros((N, 2))
@@ -397,47 +729,49 @@ def check_window(case):
                       positions=s.positions, boxlength=s.boxlength, boxbounds=s.boxbounds, realbounds=s.realbounds,
                       hmatrix=s.hmatrix) for s in sn]
     snaps = Snapshots(nsnapshots=T, snapshots=sn)
-    inp = prop.copy()
-    res = time_average(snaps, inp, case["period"], case["dt"])
-    require(isinstance(res, tuple) and len(res) == 2, f"time_average returned {type(res).__name__}, not a pair")
-    vals = arr("time_average values", res[0], ndim=2)
-    idx = arr("time_average indices", res[1], ndim=1)
-    R = vals.shape[0]
-    require(vals.shape[1] == N, f"time_average: {vals.shape[1]} columns for {N} particles")
-    require(idx.shape[0] == R, f"time_average: {R} rows but {idx.shape[0]} indices")
-    w_obs = T - R
-    if mode == "decimal":
-        require(w_obs in (w - 1, w), f"time_average: {R} rows for T={T}, period/interval = {w} up to rounding "
-                                      f"(expected {T - w} or {T - w + 1} rows)")
+    layout = case.get("layout", "c")
+    inp = _as_layout(prop, layout)
+    period = {"float": float, "int": int, "np.int64": np.int64}[case.get("prepr", "float")](case["period"])
+    if case["dt"] is None:
+        res = time_average(snaps, inp, period)
     else:
-        require(w_obs == w, f"time_average: {R} rows for T={T} and window of floor({case['period']!r}/"
-                            f"({case['step']}*{case['dt']!r})) = {w} frames (expected {T - w})")
-    want = cgref.window_means(prop, w_obs)[:R]
-    # accuracy is asserted against the magnitude of the values INSIDE each window (per row and particle): a direct mean
-    # of w numbers is accurate to w * eps * max|window|, whatever the rest of the series holds
-    wmax = np.stack([np.abs(prop[n:n + w_obs]).max(axis=0) for n in range(R)]) if R else np.zeros((0, N))
-    bad = np.abs(vals - want) > 1e-10 * np.abs(want) + 1e-12 * np.maximum(wmax, 1e-290)
-    if bad.any():
-        n, j = [int(x[0]) for x in np.nonzero(bad)]
-        raise Violation(f"time_average values (window {w_obs} frames): row {n}, particle {j}: got {vals[n, j]!r}, mean of "
-                        f"frames {n}..{n + w_obs - 1} is {want[n, j]!r} (largest |value| in that window {wmax[n, j]!r}, "
-                        f"largest in the series {float(np.abs(prop).max())!r})")
-    require(np.all(np.isreal(idx)) and np.all(np.asarray(idx, dtype=float) == np.round(np.asarray(idx, dtype=float))),
-            f"time_average: non-integer frame indices {idx.tolist()}")
-    fi = np.asarray(idx, dtype=float)
-    centre = np.arange(R) + (w_obs - 1) / 2.0
-    require(np.all(np.abs(fi - centre) <= 0.5),
-            lambda: f"time_average: reported indices {fi.tolist()} are not central frames of the windows "
-                    f"[n, n+{w_obs - 1}] (centres {centre.tolist()})")
-    require(np.all(np.diff(fi) == 1), lambda: f"time_average: indices {fi.tolist()} do not advance by one per row")
+        res = time_average(snaps, inp, period, case["dt"])
+    dtv = 0.002 if case["dt"] is None else case["dt"]
+    if mode == "decimal":
+        # floor(period/interval) for a period typed as a decimal multiple w of the interval.  The statement's formula is
+        # crisp when every true-division order of evaluating it in double precision gives the intended w: then w is
+        # demanded (floor DIVISION, exact on the doubles, yields w - 1 whenever the quotient of the doubles is a hair
+        # below w).  Where some order gives w - 1, both are accepted.
+        counts = _window_counts(case["period"], case["step"], dtv)
+        allowed = {w} if counts == {w} else {w - 1, w}
+    else:
+        allowed = {w}
+    w_obs, R = _check_window_result("", res, prop, allowed, single)
     require(np.array_equal(inp, prop), "time_average modified its input")
     tags = [mode, "complex" if np.iscomplexobj(prop) else "real", "w-odd" if w_obs % 2 else "w-even",
             f"w{min(w_obs, 5)}{'+' if w_obs >= 5 else ''}", f"rows{min(R, 4)}{'+' if R >= 4 else ''}",
-            "t0-zero" if case["t0"] == 0 else "t0-offset"]
+            "t0-zero" if case["t0"] == 0 else "t0-offset", "dtype-" + prop.dtype.name, "layout-" + layout,
+            "period-type-" + case.get("prepr", "float"), "timestep-np.int64" if case["npint"] else "timestep-int"]
+    if mode == "decimal":
+        tags.append("decimal-crisp" if len(allowed) == 1 else "decimal-ambiguous")
+        if len(allowed) == 1 and int(case["period"] // (case["step"] * dtv)) != w:
+            tags.append("decimal-crisp-floor-division-differs")
     if mode == "decimal" and w_obs != w:
         tags.append("decimal-rounded-down")
+    if w_obs == T:
+        tags.append("window-is-whole-trajectory")
     tags.append("range-" + case.get("range", "flat"))
-    tags.append("T<=10" if T <= 10 else "T11-24")
+    tags.append("T<=10" if T <= 10 else "T11-24" if T <= 24 else "T25-100" if T <= 100 else "T101-300")
+    if case.get("again"):
+        ag = case["again"]
+        prop2 = (prop[::-1] * ag["scale"]).astype(prop.dtype)      # exact (scale is dyadic or small integer)
+        if layout == "readonly":
+            inp = inp.copy()
+        inp[...] = prop2
+        period2 = (ag["w"] + ag["frac"]) * (case["step"] * dtv)
+        res2 = time_average(snaps, inp, period2) if case["dt"] is None else time_average(snaps, inp, period2, case["dt"])
+        _check_window_result(" (second call, same objects, new contents and window)", res2, prop2, {ag["w"]}, single)
+        tags.append("second-call")
     nontrivial = bool(w_obs >= 2 and R >= 2)
     return {"nontrivial": nontrivial, "tags": tags}
 
@@ -457,4 +791,14 @@ FACETS = [
                "particle) pairs of a frame and some grid value is non-zero"),
     Facet("time_average", window_st(), check_window, quick=1600, thorough=80000, describe=describe_window,
           shards_quick=2, rule="non-trivial = window of >= 2 frames and >= 2 rows"),
+    Facet("gaussian_large", gauss_st(big=True), check_gauss, quick=160, thorough=4000, describe=describe_gauss,
+          shards_quick=4,
+          rule="grids of real use: 2D 7..24 points per axis, 3D 4..9 (49..729 grid points, any remainder modulo 64), "
+               "N 30..150 from a drawn seed; non-trivial as for gaussian_blurring"),
+    Facet("deep_sizes_spatial", spatial_st(deep=True), check_spatial, quick=0, thorough=600, describe=describe_spatial,
+          rule="thorough tier only: N 100..500, coordination numbers up to 90"),
+    Facet("deep_sizes_gaussian", gauss_st(big=True, deep=True), check_gauss, quick=0, thorough=320,
+          describe=describe_gauss, rule="thorough tier only: N 200..1500, grids up to 60 x 60 / 16 x 16 x 16"),
+    Facet("deep_sizes_window", window_st(deep=True), check_window, quick=0, thorough=3000, describe=describe_window,
+          rule="thorough tier only: T 25..300, N up to 300"),
 ]
